@@ -472,6 +472,22 @@ def run(R):
     gobjs += rest if R.thorough else rng.sample(rest, 2000)
     deep = [b for b in built if fheight(b[1]) == 3]
     gobjs += rng.sample(deep, min(len(deep), 4000 if R.thorough else 150))
+    # formulas whose offending part is REDUNDANT (x or not x, x and not x, x --> x, repeated operands): a guard that runs after some
+    # simplification / rewriting of the formula would no longer see the quantifier or operator that puts the formula outside the logic
+    P_, Q_ = ('ap', 'p'), ('ap', 'q')
+    offenders = [('E', P_), ('A', ('X', P_)), ('E', ('U', P_, Q_)), ('A', ('F', ('G', P_))), ('E', ('G', ('F', Q_))), ('A', ('not', ('X', Q_))),
+                 ('X', P_), ('U', P_, Q_), ('F', ('G', P_))]
+    red = []
+    for x in offenders:
+        nx = ('not', x)
+        for w in (('or', x, nx), ('or', nx, x), ('or', nx, x, P_), ('and', x, nx), ('imp', x, x), ('or', x, x), ('and', nx, nx, x),
+                  ('or', ('and', x, Q_), nx), ('not', ('and', x, nx))):
+            red += [w, ('A', w), ('E', w), ('A', ('X', w)), ('A', ('U', w, P_)), ('A', ('G', ('or', w, Q_))), ('or', ('A', w), Q_)]
+    red = [f for f in dict.fromkeys(red) if pymember('CTLS', f)]
+    if not R.thorough:
+        red = rng.sample(red, min(len(red), 220))
+    gobjs += [('CTLS', f) for f in red]
+    R.cov['guard_redundant_offender_templates'] = len(red)
     gcases = [(Mn, Ln, f) for (Ln, f) in gobjs for Mn in CHECKERS]
     outs = model_batch_parallel([guard_cmd(Mn, Ln, ks, f) for (Mn, Ln, f) in gcases])
     for (Mn, Ln, f), o in zip(gcases, outs):
